@@ -6,6 +6,7 @@ import (
 
 	"github.com/HobbyOSs/gosk/internal/ast"
 	"github.com/HobbyOSs/gosk/pkg/cpu"
+	"github.com/samber/lo"
 )
 
 // TraverseAST は ast.Node と *Pass1 (Env として) を受け取り、変換される可能性のある ast.Node を返します。
@@ -127,6 +128,10 @@ func TraverseAST(node ast.Node, env *Pass1) ast.Node {
 	case *ast.ExportSymStmt: // GLOBAL ディレクティブ
 		// フィールド名を Symbols に修正
 		for _, factor := range n.Symbols {
+			// 同じ名前が複数回 GLOBAL 宣言されてもシンボルは 1 つだけ出力する
+			if lo.Contains(env.GlobalSymbolList, factor.Value) {
+				continue
+			}
 			env.GlobalSymbolList = append(env.GlobalSymbolList, factor.Value)
 			log.Printf("debug: Added global symbol '%s'", factor.Value)
 		}
